@@ -21,6 +21,7 @@ import (
 
 	"github.com/google/martian/v3"
 	"github.com/google/martian/v3/parse"
+	"github.com/google/martian/v3/proxyutil"
 )
 
 // ValueRegexFilter executes resmod and reqmod when the header
@@ -30,13 +31,17 @@ type ValueRegexFilter struct {
 	header string
 	reqmod martian.RequestModifier
 	resmod martian.ResponseModifier
+	// else branch
+	freqmod martian.RequestModifier
+	fresmod martian.ResponseModifier
 }
 
 type headerValueRegexFilterJSON struct {
-	Regex      string               `json:"regex"`
-	HeaderName string               `json:"header"`
-	Modifier   json.RawMessage      `json:"modifier"`
-	Scope      []parse.ModifierType `json:"scope"`
+	Regex        string               `json:"regex"`
+	HeaderName   string               `json:"header"`
+	Modifier     json.RawMessage      `json:"modifier"`
+	ElseModifier json.RawMessage      `json:"else"`
+	Scope        []parse.ModifierType `json:"scope"`
 }
 
 func init() {
@@ -46,10 +51,12 @@ func init() {
 // NewValueRegexFilter builds a new header value regex filter.
 func NewValueRegexFilter(regex *regexp.Regexp, header string) *ValueRegexFilter {
 	return &ValueRegexFilter{
-		regex:  regex,
-		header: header,
-		reqmod: noop,
-		resmod: noop,
+		regex:   regex,
+		header:  header,
+		reqmod:  noop,
+		resmod:  noop,
+		freqmod: noop,
+		fresmod: noop,
 	}
 }
 
@@ -76,35 +83,53 @@ func headerValueRegexFilterFromJSON(b []byte) (*parse.Result, error) {
 	resmod := r.ResponseModifier()
 	filter.SetResponseModifier(resmod)
 
+	if len(msg.ElseModifier) > 0 {
+		em, err := parse.FromJSON(msg.ElseModifier)
+		if err != nil {
+			return nil, err
+		}
+		if m := em.RequestModifier(); m != nil {
+			filter.freqmod = m
+		}
+		if m := em.ResponseModifier(); m != nil {
+			filter.fresmod = m
+		}
+	}
+
 	return parse.NewResult(filter, msg.Scope)
 }
 
-// ModifyRequest runs reqmod iff the value of header matches regex.
-func (f *ValueRegexFilter) ModifyRequest(req *http.Request) error {
-	hvalue := req.Header.Get(f.header)
-	if hvalue == "" {
-		return nil
+// matches reports whether some value of the filter's header among the request
+// headers - Host, Content-Length and Transfer-Encoding included - matches regex.
+func (f *ValueRegexFilter) matches(req *http.Request) bool {
+	vs, _ := proxyutil.RequestHeader(req).All(f.header)
+	for _, v := range vs {
+		if f.regex.MatchString(v) {
+			return true
+		}
 	}
 
-	if f.regex.MatchString(hvalue) {
+	return false
+}
+
+// ModifyRequest runs reqmod iff a value of header matches regex, otherwise
+// the else modifier.
+func (f *ValueRegexFilter) ModifyRequest(req *http.Request) error {
+	if f.matches(req) {
 		return f.reqmod.ModifyRequest(req)
 	}
 
-	return nil
+	return f.freqmod.ModifyRequest(req)
 }
 
-// ModifyResponse runs resmod iff the value of request header matches regex.
+// ModifyResponse runs resmod iff a value of the request header matches regex,
+// otherwise the else modifier.
 func (f *ValueRegexFilter) ModifyResponse(res *http.Response) error {
-	hvalue := res.Request.Header.Get(f.header)
-	if hvalue == "" {
-		return nil
-	}
-
-	if f.regex.MatchString(hvalue) {
+	if f.matches(res.Request) {
 		return f.resmod.ModifyResponse(res)
 	}
 
-	return nil
+	return f.fresmod.ModifyResponse(res)
 }
 
 // SetRequestModifier sets the request modifier of HeaderValueRegexFilter.
